@@ -529,8 +529,20 @@ func Run(t *simkit.Tape, o *simkit.Outcome, full bool) {
 			s.Vars = append(s.Vars, [2]string{"p:k", "v"})
 		}
 	}
-	if t.Bool(1, 10) {
-		s.Entities = append(s.Entities, [2]string{"ent", "EV"})
+	if t.Bool(1, 6) {
+		if t.Bool(3, 4) {
+			s.Entities = append(s.Entities, [2]string{"ent", "EV"})
+		}
+		// some XML files reference the entity (with -e it expands; without, the file is unparsable)
+		for i := range s.Tree {
+			f := &s.Tree[i]
+			if f.Kind == "xml" && f.Fault == "" && t.Bool(1, 2) {
+				if k := bytes.LastIndex(f.Content, []byte("</")); k > 0 {
+					f.Content = append(append(append([]byte{}, f.Content[:k]...), []byte("&ent;")...), f.Content[k:]...)
+					f.Fault = "references-entity"
+				}
+			}
+		}
 	}
 	// expression from the workload generator, restricted to the bound names
 	large := false
@@ -569,7 +581,9 @@ func Run(t *simkit.Tape, o *simkit.Outcome, full bool) {
 		o.HarnessDoubt("scratch: %v", err)
 		return
 	}
-	defer os.RemoveAll(work)
+	if os.Getenv("VERIF_KEEP") == "" {
+		defer os.RemoveAll(work)
+	}
 	tree := filepath.Join(work, "tree")
 	if err := s.Materialise(tree); err != nil {
 		o.HarnessDoubt("materialise: %v", err)
